@@ -1,17 +1,172 @@
 package sym
 
 import (
+	"fmt"
+	"math/big"
+
 	"golang.org/x/tools/go/ssa"
+
+	"verif/engine/smt"
 )
 
-func (e *Exec) intrinsicBig(name string, fn *ssa.Function, args []Value) (Value, bool) {
-	return nil, false
+const b58Alphabet = "123456789ABCDEFGHJKLMNPQRSTUVWXYZabcdefghijkmnopqrstuvwxyz"
+
+var b58Member [256]uint64
+
+func init() {
+	for i := 0; i < len(b58Alphabet); i++ {
+		b58Member[b58Alphabet[i]] = 1
+	}
+}
+
+type b58rec struct {
+	chars []*smt.Term
+	bytes []*smt.Term
+}
+
+func inB58(c *smt.Term) *smt.Term {
+	return smt.Eq(smt.Table(b58Member[:], 1, c), smt.BVC(1, 1))
+}
+
+func digitsBase(v *big.Int, base int64) int {
+	if v.Sign() == 0 {
+		return 0
+	}
+	n := 0
+	t := new(big.Int).Set(v)
+	b := big.NewInt(base)
+	for t.Sign() > 0 {
+		t.Div(t, b)
+		n++
+	}
+	return n
+}
+
+func pow(base int64, k int) *big.Int {
+	return new(big.Int).Exp(big.NewInt(base), big.NewInt(int64(k)), nil)
+}
+
+// abstractB58Encode: Base58 as an abstract injective map (contract established by C07 on the real code).
+func (e *Exec) abstractB58Encode(bs []*smt.Term) Value {
+	n := len(bs)
+	z := e.choose(n+1, func(i int) bool { return e.feasible(leadZeros(bs, i)) })
+	e.pc = append(e.pc, leadZeros(bs, z))
+	m := n - z
+	var chars []*smt.Term
+	for i := 0; i < z; i++ {
+		chars = append(chars, byteConst('1'))
+	}
+	if m > 0 {
+		lo := digitsBase(pow(256, m-1), 58)
+		hi := digitsBase(new(big.Int).Sub(pow(256, m), big.NewInt(1)), 58)
+		d := lo + e.choose(hi-lo+1, nil)
+		uf := smt.App(fmt.Sprintf("b58enc_%d_%d_%d", n, z, d), smt.BV(8*d), concatBytes(bs))
+		cs := bytesOfTerm(uf, d)
+		for i, c := range cs {
+			e.pc = append(e.pc, inB58(c))
+			if i == 0 {
+				e.pc = append(e.pc, smt.Not(smt.Eq(c, byteConst('1'))))
+			}
+		}
+		chars = append(chars, cs...)
+	}
+	e.b58 = append(e.b58, b58rec{chars: chars, bytes: append([]*smt.Term(nil), bs...)})
+	if e.ufSeen == nil {
+		e.ufSeen = map[string]bool{}
+	}
+	e.ufSeen["base58 (abstract bijection)"] = true
+	return &Str{B: chars}
+}
+
+func (e *Exec) abstractB58Decode(s *Str) Value {
+	for _, r := range e.b58 {
+		if len(r.chars) != len(s.B) {
+			continue
+		}
+		same := true
+		for i := range r.chars {
+			if !smt.Same(r.chars[i], s.B[i]) {
+				same = false
+				break
+			}
+		}
+		if same {
+			return e.newByteSlice(append([]*smt.Term(nil), r.bytes...))
+		}
+	}
+	n := len(s.B)
+	var bad []*smt.Term
+	for _, c := range s.B {
+		bad = append(bad, smt.Not(inB58(c)))
+	}
+	anyBad := smt.Or(bad...)
+	if !anyBad.IsFalse() {
+		if anyBad.IsTrue() {
+			return &Slice{Back: []*Cell{}, Len: 0, Cap: 0}
+		}
+		// both sides are explored without a feasibility query (the path condition of callers is
+		// typically checksum-heavy); an infeasible side only costs vacuous obligations
+		if e.choose(2, nil) == 0 {
+			e.pc = append(e.pc, anyBad)
+			return &Slice{Back: []*Cell{}, Len: 0, Cap: 0}
+		}
+		e.pc = append(e.pc, smt.Not(anyBad))
+	}
+	// Over-approximation: the decoded length is any length a string of n alphabet characters can
+	// have (leading '1's map to zero bytes one-for-one, the rest shrinks by log 58 / log 256);
+	// the contents are an uninterpreted function of the characters.
+	lo := 0
+	if n > 0 {
+		lo = (pow(58, n-1).BitLen() + 7) / 8
+	}
+	if lo > n {
+		lo = n
+	}
+	L := lo + e.choose(n-lo+1, nil)
+	var out []*smt.Term
+	if L > 0 {
+		uf := smt.App(fmt.Sprintf("b58dec_%d_%d", n, L), smt.BV(8*L), concatBytes(s.B))
+		out = bytesOfTerm(uf, L)
+	}
+	if e.ufSeen == nil {
+		e.ufSeen = map[string]bool{}
+	}
+	e.ufSeen["base58 (abstract bijection)"] = true
+	return e.newByteSlice(out)
 }
 
 func (e *Exec) intrinsicMisc(name string, fn *ssa.Function, args []Value) (Value, bool) {
+	switch name {
+	case "github.com/gcash/bchutil/base58.Encode":
+		if e.Cfg.RealBase58 {
+			return nil, false
+		}
+		bs := e.sliceTerms(args[0])
+		if _, ok := allConst(bs); ok {
+			return nil, false
+		}
+		return e.abstractB58Encode(bs), true
+	case "github.com/gcash/bchutil/base58.Decode":
+		if e.Cfg.RealBase58 {
+			return nil, false
+		}
+		s := args[0].(*Str)
+		if _, ok := allConst(s.B); ok {
+			return nil, false
+		}
+		return e.abstractB58Decode(s), true
+	}
 	return nil, false
 }
 
 func (e *Exec) harnessAPI2(fn *ssa.Function, args []Value) (Value, bool) {
+	switch fn.Name() {
+	case "vSupportSweep":
+		label := e.constStr(args[0])
+		ev := e.sliceTerms(args[1])
+		w := e.constInt(args[2])
+		e.supportSweep(label, ev, w)
+		return nil, true
+	}
 	return nil, false
 }
